@@ -86,6 +86,9 @@ func newPool() *purityPool {
 	p.texts["t_invalid"] = dslInvalid
 	p.texts["t_module"] = dslModule
 	p.texts["y_ok"] = yamlOK
+	// manifests of several YAML documents (what follows the manifest is read for syntax errors only)
+	p.texts["y_multi"] = "schema: '1.2'\ncontents:\n  - core.fga\n---\nnotes:\n  - one\n  - two\n---\nmore: {a: [b, c]}\n"
+	p.texts["y_multibad"] = "schema: '1.2'\ncontents:\n  - core.fga\n  - ../x.fga\n---\nnotes: fine\n---\nnotes: [unterminated\n"
 	p.texts["s_user"] = "group:eng#member"
 	// strings on which the rules of different fields disagree (a condition name may contain ':', '#', '@'; a relation may not; ...)
 	p.texts["s_colon"] = "team:owner"
